@@ -236,10 +236,10 @@ func c09Build(t *testing.T, app *chain.App, ctx sdk.Context, gen int, rng *Rng, 
 			}
 		}
 	}
-	if gen == 2 {
+	if gen == 2 && rng.Chance(92) { // without them the external-keeper message is rejected; the sweeps do not need them
 		app.NewaucKeeper.SetAuctionParams(ctx, auctionsV2types.AuctionParams{AuctionDurationSeconds: 3600, Step: sdk.MustNewDecFromStr("0.1"),
 			WithdrawalFee: sdk.ZeroDec(), ClosingFee: sdk.ZeroDec(), MinUsdValueLeft: 100000, BidFactor: sdk.MustNewDecFromStr("0.1"),
-			LiquidationPenalty: sdk.MustNewDecFromStr("0.1"), AuctionBonus: sdk.ZeroDec()})
+			LiquidationPenalty: sdk.NewDecWithPrec(int64(rng.Range(0, 150)), 3), AuctionBonus: sdk.NewDecWithPrec(int64(rng.Range(0, 50)), 3)})
 	}
 	// users
 	nUsers := scale(10, 16)
@@ -1226,7 +1226,7 @@ func (f *c09Fix) reserveMsg() {
 	}
 	denom := f.denom(assetID)
 	denomOK := denom != ""
-	if rng.Chance(8) || denom == "" {
+	if rng.Chance(15) || denom == "" {
 		denom, denomOK = f.denom(f.assets[0]), assetID == f.assets[0]
 	}
 	amt := sdk.NewInt(int64(rng.Range(0, 5000000)))
@@ -1271,7 +1271,7 @@ func (f *c09Fix) externalMsg() {
 	if rng.Chance(5) {
 		colID = uint64(rng.Range(60, 90)) // unknown asset id
 	}
-	if rng.Chance(5) {
+	if rng.Chance(8) {
 		debtID = uint64(rng.Range(60, 90))
 	}
 	user := f.users[rng.Intn(len(f.users))]
@@ -1321,6 +1321,7 @@ func TestC09(t *testing.T) {
 	}
 	c09WitnessBorrowLeak(t, app, base, tr) // repaired by c15713f: nothing is flagged, nothing moves
 	c09WitnessTransitBand(t, app, base, tr)
+	c09WitnessGuardsV1(t, app, base, tr)
 	c09WitnessEmodeMsgV1(t, app, base, tr)  // NEW finding: generation-1 MsgLiquidateBorrow ignores e-mode
 	c09WitnessAuctionTypesV2(t, app, base, tr) // English-only and no-type whitelistings
 
@@ -1921,6 +1922,38 @@ func c09WitnessTransitBand(t *testing.T, app *chain.App, base sdk.Context, tr *T
 			f.liquidateMsg(r.id, 3, 1)
 		}
 	}
+}
+
+// Generation 1 guards, deterministically: executed ESM, kill switch, inactive collateral price — the unsafe vault stays through
+// sweep and message each time — then everything off: seized.
+func c09WitnessGuardsV1(t *testing.T, app *chain.App, base sdk.Context, tr *Trace) {
+	f := c09Simple(t, app, base, 1, tr, 1)
+	f.setBatch(4)
+	tr.Line("liq.begin", "v1", "4")
+	for i, cr := range []int64{2000, 1067} {
+		if res := f.createVault(f.users[i], 1, sdk.NewInt(1000000), cr); res != "ok" {
+			t.Fatalf("witness: create vault: %s", res)
+		}
+	}
+	f.setPrice(1, 1800000, true)
+	step := func() {
+		f.block()
+		f.liquidateMsg(2, 1, 0)
+	}
+	f.app.EsmKeeper.SetESMStatus(f.ctx, esmtypes.ESMStatus{AppId: 1, Status: true})
+	step()
+	f.app.EsmKeeper.SetESMStatus(f.ctx, esmtypes.ESMStatus{AppId: 1, Status: false})
+	_ = f.app.EsmKeeper.SetKillSwitchData(f.ctx, esmtypes.KillSwitchParams{AppId: 1, BreakerEnable: true})
+	step()
+	_ = f.app.EsmKeeper.SetKillSwitchData(f.ctx, esmtypes.KillSwitchParams{AppId: 1, BreakerEnable: false})
+	f.setPrice(1, 1800000, false)
+	step()
+	_, still := f.app.VaultKeeper.GetVault(f.ctx, 2)
+	tr.Set("witness_guards_v1_vault2_still_open_under_guards", still)
+	f.setPrice(1, 1800000, true)
+	f.block()
+	_, still = f.app.VaultKeeper.GetVault(f.ctx, 2)
+	tr.Set("witness_guards_v1_vault2_still_open_after_guards_off", still)
 }
 
 // Generation 1, e-mode pair: the collateral price is put in the middle of the band between the pair's normal threshold and
